@@ -44,7 +44,18 @@ def main():
         finally:
             sh("git -C /repo checkout -- . ; git -C /repo reset -q")
     assert sh("git -C /repo status --porcelain").stdout.strip() == ""
-    if "--write" in sys.argv:
+    if "--update" in sys.argv:
+        # keep the rows of changes not run this time
+        path = os.path.join(SEEDED, "RESULTS.md")
+        old = []
+        if os.path.exists(path):
+            for l in open(path):
+                cells = [c.strip() for c in l.strip().strip("|").split("|")]
+                if l.startswith("| ") and len(cells) == 5 and cells[0] not in ("seeded change", "---") and not set(cells[0]) <= set("-"):
+                    old.append(tuple(cells))
+        ran = {r[0] for r in rows}
+        rows = sorted([r for r in old if r[0] not in ran] + rows, key=lambda r: (str(r[0]), str(r[1])))
+    if "--write" in sys.argv or "--update" in sys.argv:
         with open(os.path.join(SEEDED, "RESULTS.md"), "w") as f:
             f.write("# Seeded changes: which checks catch which\n\nEach change was written by a sub-agent that saw only the property text and a scratch worktree of /repo,\n"
                     "confirmed independently (tools/confirm_seeded.py: existing suite passes with it, demo fails with it, passes without),\n"
